@@ -640,6 +640,11 @@ func (p *Printer) wordParts(wps []WordPart, quoted bool) {
 		if i+1 < len(wps) {
 			next = wps[i+1]
 		}
+		if i > 0 && p.wantSpace == spaceRequired {
+			// The parts of a word are contiguous; a space wanted after the
+			// previous part, such as "$(foo)", must not split "$(foo)<(bar)".
+			p.wantSpace = spaceNotRequired
+		}
 		// Keep escaped newlines separating word parts when quoted.
 		// Note that those escaped newlines don't cause indentaiton.
 		// When not quoted, we strip them out consistently,
